@@ -107,14 +107,6 @@ class Reduction(ArrayExpr):
         ndim = len(self.chunks)
         return np.empty((0,) * ndim, dtype=dtype)
 
-    def _layer(self):
-        """Generate the task layer by lowering first.
-
-        Reduction should always be lowered before graph generation,
-        but we need to support direct _layer() calls for is_dask_collection().
-        """
-        return self.lower_completely()._layer()
-
     def _simplify_up(self, parent, dependents):
         """Allow slice operations to push through Reduction."""
         from dask_array.slicing import SliceSlicesIntegers
